@@ -3,6 +3,7 @@
            the clipped region never leaves either polygon, self-clipping, rectangle area. *)
 From Coq Require Import List Bool ZArith QArith Qfield Qabs Lia Lra Psatz Setoid Morphisms.
 From Similari Require Import Base.Num Model.Geom.
+From SimilariGen Require Import Scalar ScalarClip ScalarBox.
 Import ListNotations.
 Open Scope Q_scope.
 
@@ -23,7 +24,7 @@ Lemma qzero : zero Qops = 0. Proof. reflexivity. Qed.
 Lemma qone : one Qops = 1. Proof. reflexivity. Qed.
 Lemma qleb a b : leb Qops a b = Qle_bool a b. Proof. reflexivity. Qed.
 Lemma qltb a b : ltb Qops a b = negb (Qle_bool b a). Proof. reflexivity. Qed.
-Lemma qtwo : two Qops == 2. Proof. unfold two. rewrite qadd. reflexivity. Qed.
+Lemma qtwo : two Qops == 2. Proof. reflexivity. Qed.
 
 Lemma Qabsb_abs a : abs Qops a == Qabs a.
 Proof.
@@ -76,11 +77,15 @@ Definition crossq (p1 p2 q : qpt) : Q :=
 Lemma cross_q p1 p2 q : cross Qops p1 p2 q == crossq p1 p2 q.
 Proof. unfold cross, crossq. qn. reflexivity. Qed.
 
+(* the translated clip_is_inside tests the sign of [cross] (by computation: the texts coincide) *)
+Lemma is_inside_cross q p1 p2 : is_inside Qops q p1 p2 = leb Qops (cross Qops p1 p2 q) (zero Qops).
+Proof. reflexivity. Qed.
+
 Lemma is_inside_iff q p1 p2 : is_inside Qops q p1 p2 = true <-> crossq p1 p2 q <= 0.
-Proof. unfold is_inside. rewrite qleb_iff, cross_q, qzero. reflexivity. Qed.
+Proof. rewrite is_inside_cross. rewrite qleb_iff, cross_q, qzero. reflexivity. Qed.
 
 Lemma is_inside_false q p1 p2 : is_inside Qops q p1 p2 = false <-> 0 < crossq p1 p2 q.
-Proof. unfold is_inside. rewrite qleb, cross_q, qzero. apply Qle_bool_false. Qed.
+Proof. rewrite is_inside_cross. rewrite qleb, cross_q, qzero. apply Qle_bool_false. Qed.
 
 (* equality of points / of vertex lists up to == *)
 Definition peq (p q : qpt) : Prop := px p == px q /\ py p == py q.
@@ -117,25 +122,34 @@ Proof.
     + apply Qle_shift_div_r; [exact D | lra].
 Qed.
 
-Lemma clamp01_id t t' : t == t' -> 0 <= t' <= 1 -> clamp01 Qops t == t'.
+(* f64::clamp(0.0, 1.0), translated as min (max t 0) 1 *)
+Lemma clamp_id t t' : t == t' -> 0 <= t' <= 1 -> min Qops (max Qops t (zero Qops)) (one Qops) == t'.
 Proof.
-  intros E [H0 H1]. unfold clamp01.
-  destruct (ltb Qops t (zero Qops)) eqn:A.
-  - apply qltb_iff in A. rewrite qzero, E in A. lra.
-  - destruct (ltb Qops (one Qops) t) eqn:B; [|exact E].
-    apply qltb_iff in B. rewrite qone, E in B. lra.
+  intros E [H0 H1]. rewrite qzero, qone.
+  destruct (Qmaxb_spec t 0) as [[A M]|[A M]]; rewrite M.
+  - destruct (Qminb_spec 0 1) as [[B N]|[B N]]; rewrite N; [rewrite E in A; lra | lra].
+  - destruct (Qminb_spec t 1) as [[B N]|[B N]]; rewrite N; [exact E | rewrite E in B; lra].
 Qed.
+
+(* the translated clip_compute_intersection, unfolded (by computation) in terms of [cross] *)
+Lemma compute_intersection_unfold s e cs ce :
+  compute_intersection Qops s e cs ce =
+  (let d1 := cross Qops cs ce s in
+   let d2 := cross Qops cs ce e in
+   let t := min Qops (max Qops (div Qops d1 (sub Qops d1 d2)) (zero Qops)) (one Qops) in
+   (add Qops (px s) (mul Qops t (sub Qops (px e) (px s))), add Qops (py s) (mul Qops t (sub Qops (py e) (py s))))).
+Proof. reflexivity. Qed.
 
 Lemma compute_intersection_parametric s e cs ce :
   sides_differ s e cs ce ->
   peq (compute_intersection Qops s e cs ce)
       (px s + ci_t s e cs ce * (px e - px s), py s + ci_t s e cs ce * (py e - py s)).
 Proof.
-  intros Hd. unfold compute_intersection.
-  assert (ET : clamp01 Qops (div Qops (cross Qops cs ce s) (sub Qops (cross Qops cs ce s) (cross Qops cs ce e)))
-               == ci_t s e cs ce).
-  { apply clamp01_id; [|now apply ci_t_range]. rewrite qdiv, qsub, !cross_q. reflexivity. }
-  set (tt := clamp01 Qops _) in *.
+  intros Hd. rewrite compute_intersection_unfold. cbv zeta.
+  assert (ET : min Qops (max Qops (div Qops (cross Qops cs ce s) (sub Qops (cross Qops cs ce s) (cross Qops cs ce e)))
+                          (zero Qops)) (one Qops) == ci_t s e cs ce).
+  { apply clamp_id; [|now apply ci_t_range]. rewrite qdiv, qsub, !cross_q. reflexivity. }
+  set (tt := min Qops _ _) in *.
   unfold peq. cbn [px py fst snd]. qn. rewrite ET. split; reflexivity.
 Qed.
 
@@ -592,9 +606,12 @@ End Rect.
 Lemma rect_vertices_q (b : qbox) :
   leq (rect_vertices Qops b) (rectq (bxc b) (byc b) (bc b) (bs b) (basp b) (bh b)).
 Proof.
-  unfold rect_vertices, rectq, rq0, rq1, rq2, rq3, leq.
-  repeat (apply Forall2_cons); try apply Forall2_nil; unfold peq; cbn [px py fst snd]; qn;
-    rewrite ?qtwo; split; reflexivity.
+  unfold rect_vertices, ubox_vertices. cbv zeta.
+  cbn [map of_coord to_ubox Coord_x Coord_y Universal2DBox_xc Universal2DBox_yc Universal2DBox_aspect
+       Universal2DBox_height Universal2DBox_angle of_Q Qops].
+  unfold rectq, rq0, rq1, rq2, rq3, leq, of_coord.
+  repeat (apply Forall2_cons); try apply Forall2_nil; unfold peq; cbn [px py fst snd Coord_x Coord_y]; qn;
+    split; reflexivity.
 Qed.
 
 Lemma all_in_leq u u' w w' l l' : peq u u' -> peq w w' -> leq l l' -> all_in u w l -> all_in u' w' l'.
@@ -664,7 +681,10 @@ Definition radius2q (b : qbox) : Q := (basp b * bh b / 2) * (basp b * bh b / 2) 
 Definition dist2q (l r : qbox) : Q := (bxc l - bxc r) * (bxc l - bxc r) + (byc l - byc r) * (byc l - byc r).
 
 Lemma radius2_q b : radius2 Qops b == radius2q b.
-Proof. unfold radius2, radius2q. qn. rewrite ?qtwo. reflexivity. Qed.
+Proof.
+  unfold radius2, radius2q, ubox_radius_sq, to_ubox. cbv zeta.
+  cbn [Universal2DBox_aspect Universal2DBox_height of_Q Qops]. qn. reflexivity.
+Qed.
 
 Lemma dist2_q l r : dist2 Qops l r == dist2q l r.
 Proof. unfold dist2, dist2q. qn. reflexivity. Qed.
@@ -957,7 +977,8 @@ Lemma aa_inter_cases l r :
   (0 < aa_w l r /\ 0 < aa_h l r /\ aa_inter Qops l r == aa_w l r * aa_h l r) \/
   ((aa_w l r <= 0 \/ aa_h l r <= 0) /\ aa_inter Qops l r == 0).
 Proof.
-  unfold aa_inter.
+  unfold aa_inter, bbox_intersection, to_bbox.
+  cbn [BoundingBox_left BoundingBox_top BoundingBox_width BoundingBox_height].
   set (W := sub Qops (min Qops (add Qops (bl l) (bw l)) (add Qops (bl r) (bw r))) (max Qops (bl l) (bl r))).
   set (H := sub Qops (min Qops (add Qops (bt l) (bhh l)) (add Qops (bt r) (bhh r))) (max Qops (bt l) (bt r))).
   assert (EW : W == aa_w l r).
@@ -1537,4 +1558,69 @@ Proof.
   - apply eqb_iff in Z. split; [intros _; exact Z | reflexivity].
   - split; [discriminate|]. intros Hz.
     assert (T : eqb Qops (inter_area Qops l r) (zero Qops) = true) by (apply eqb_iff; exact Hz). congruence.
+Qed.
+
+(* ------------------------------------------------------------------------------------------ *)
+(* The tie to the functions TRANSLATED from the Rust source (gen/ScalarClip.v, gen/ScalarBox.v).
+   Swapped (the model calls the translated function; equalities by computation): is_inside, compute_intersection,
+   rect_vertices, radius2, aa_inter.  Bridged (hand definition proved equal to the translated text): box_area,
+   to_ltwh, of_ltwh, too_far (squared form, through BoxExtraProofs.too_far_sq_correct_lemma). *)
+From Similari Require Import Proofs.BoxExtraProofs.
+
+Lemma is_inside_is_translation_lemma (q p1 p2 : qpt) :
+  is_inside Qops q p1 p2 = clip_is_inside Qops (to_coord Qops q) (to_coord Qops p1) (to_coord Qops p2).
+Proof. reflexivity. Qed.
+
+Lemma compute_intersection_is_translation_lemma (cp1 cp2 s e : qpt) :
+  compute_intersection Qops cp1 cp2 s e =
+  of_coord Qops (clip_compute_intersection Qops (to_coord Qops cp1) (to_coord Qops cp2) (to_coord Qops s) (to_coord Qops e)).
+Proof. reflexivity. Qed.
+
+Lemma rect_vertices_is_translation_lemma (b : qbox) :
+  rect_vertices Qops b = map (of_coord Qops) (ubox_vertices Qops (to_ubox Qops b) (bc b) (bs b)).
+Proof. reflexivity. Qed.
+
+Lemma radius2_is_translation_lemma (b : qbox) : radius2 Qops b = ubox_radius_sq Qops (to_ubox Qops b).
+Proof. reflexivity. Qed.
+
+Lemma aa_inter_is_translation_lemma (l r : ltwh Qops) :
+  aa_inter Qops l r = bbox_intersection Qops (to_bbox Qops l) (to_bbox Qops r).
+Proof. reflexivity. Qed.
+
+(* the union term of the IoU (height*height*aspect, written inline in calculate_metric_object) is Universal2DBox::area *)
+Lemma box_area_is_translation_lemma (b : qbox) : box_area Qops b == ubox_area Qops (to_ubox Qops b).
+Proof.
+  rewrite box_area_q. unfold ubox_area, to_ubox. cbv zeta. cbn [Universal2DBox_aspect Universal2DBox_height]. qn. ring.
+Qed.
+
+(* TryFrom<&Universal2DBox> for BoundingBox / From<&BoundingBox> for Universal2DBox *)
+Lemma to_ltwh_is_translation_lemma (b : qbox) :
+  ubox_to_bbox Qops (to_ubox Qops b) = Some (to_bbox Qops (to_ltwh Qops b)).
+Proof. reflexivity. Qed.
+
+Lemma of_ltwh_is_translation_lemma (r : ltwh Qops) :
+  bbox_to_ubox Qops (to_bbox Qops r) = to_ubox Qops (of_ltwh Qops r).
+Proof. reflexivity. Qed.
+
+(* too_far: the translated test takes the two radii (sqrt of the translated radius_sq) as parameters; for any
+   non-negative radii with the right squares it is the model's sqrt-free decision *)
+Lemma ubox_too_far_sq_iff (l r : qbox) :
+  ubox_too_far_sq Qops (to_ubox Qops l) (to_ubox Qops r) = true <->
+  0 < dist2q l r - radius2q l - radius2q r /\
+  4 * radius2q l * radius2q r < (dist2q l r - radius2q l - radius2q r) * (dist2q l r - radius2q l - radius2q r).
+Proof.
+  unfold ubox_too_far_sq. cbv zeta.
+  change (ubox_radius_sq Qops (to_ubox Qops l)) with (radius2 Qops l).
+  change (ubox_radius_sq Qops (to_ubox Qops r)) with (radius2 Qops r).
+  cbn [to_ubox Universal2DBox_xc Universal2DBox_yc].
+  rewrite andb_true_iff, !qltb_iff. qn. rewrite !radius2_q. unfold dist2q. cbn [of_Q Qops]. reflexivity.
+Qed.
+
+Lemma too_far_is_translation_lemma (l r : qbox) (rl rr : Q) :
+  0 <= rl -> 0 <= rr -> rl * rl == radius2 Qops l -> rr * rr == radius2 Qops r ->
+  ubox_too_far_r Qops (to_ubox Qops l) (to_ubox Qops r) rl rr = too_far Qops l r.
+Proof.
+  intros Hl Hr El Er.
+  rewrite (too_far_sq_correct_lemma (to_ubox Qops l) (to_ubox Qops r) rl rr Hl Hr El Er).
+  apply QExtra.bool_eq_iff. rewrite ubox_too_far_sq_iff, too_far_iff. reflexivity.
 Qed.
